@@ -133,40 +133,6 @@ Fixpoint spec_ids_from (h : shead) (idx : nat) (next : Z) (ms : list mhead) : li
       id :: spec_ids_from h (S idx) (if m_hashid m then next else id + 1) r
   end.
 
-(* a `None` that create_dynamic_sample is documented to reject (data_storage.rs:667):
-   an Option member without #[dust_dds(optional)], or one whose default_value is not None *)
-Fixpoint exposes_none (t : ty) (v : value) {struct t} : bool :=
-  match t with
-  | TPrim _ | TString | TEnum _ => false
-  | TVec e | TArr e _ => match v with VList l => existsb (exposes_none e) l | _ => false end
-  | TOpt e => match v with VOpt None => true | VOpt (Some x) => exposes_none e x | _ => false end
-  | TStruct h ms =>
-      match v with
-      | VStruct fs =>
-          (fix go (ms : list (mhead * ty)) (fs : list value) : bool :=
-             match ms, fs with
-             | (m, t') :: ms', f :: fs' =>
-                 (if m_ns m then false
-                  else if treated_optional h m && value_eqb f (member_default m t') then false
-                  else exposes_none t' f) || go ms' fs'
-             | _, _ => false
-             end) ms fs
-      | _ => false
-      end
-  | TUnion h vs =>
-      match v with
-      | VUnion i (Some x) =>
-          (fix go (vs : list (vhead * option ty)) (idx : nat) : bool :=
-             match vs with
-             | [] => false
-             | (_, pt) :: vs' =>
-                 if Nat.eqb idx i then match pt with Some t' => exposes_none t' x | None => false end
-                 else go vs' (S idx)
-             end) vs O
-      | _ => false
-      end
-  end.
-
 (* known-finding classes, as conditions on the declaration *)
 Definition kn_explicit_id_ignored (t : ty) : bool :=     (* class 1 *)
   match t with
